@@ -293,23 +293,11 @@ Proof.
   intros [F [M [S A]]]. unfold crash, Inv1. cbn. rewrite S. repeat split; assumption.
 Qed.
 
-Lemma inv1_step w o :
-  is_tamper o = false -> Inv1 w -> Inv1 (fst (step w o)) /\ Forall call_id1 (snd (step w o)).
+Lemma inv1_crashstep w p k :
+  Inv1 w -> Inv1 (fst (step w (OCrash p k))) /\ Forall call_id1 (snd (step w (OCrash p k))).
 Proof.
-  intros T H. destruct o; cbn [step]; try discriminate.
-  - apply inv1_create. exact H.
-  - split; [exact H|constructor].
-  - apply inv1_destroy. exact H.
-  - apply inv1_destroy. exact H.
-  - destruct H as [F [M [S A]]]. cbn. split; [|constructor].
-    repeat split; try assumption. apply fw_all_master_kill. exact A.
-  - destruct (memN s mesos_live_states); [|split; [exact H|constructor]].
-    destruct H as [F [M [S A]]]. cbn. split; [|constructor]. repeat split; try assumption.
-    intros x Hx. apply in_map_iff in Hx. destruct Hx as [y [E Hy]].
-    destruct (N.eqb (mt_id y) t && mt_alive y); subst x; cbn; apply A; exact Hy.
-  - apply inv1_cleanup. exact H.
-  - apply inv1_subscribe. exact H.
-  - assert (P : exists w1 c1, (match p with
+  intro H. cbn [step].
+  assert (P : exists w1 c1, (match p with
       | PIdle => (w, [])
       | PBeforeLaunch =>
         let '(w0, c0) := cleanup w in
@@ -330,6 +318,36 @@ Proof.
     destruct (subscribe (crash w1)) as [w2 c2] eqn:E2.
     destruct (inv1_subscribe (crash w1) (inv1_crash w1 H1)) as [H2 C2]. rewrite E2 in H2, C2.
     cbn. split; [exact H2|]. apply Forall_app. split; assumption.
+Qed.
+
+Lemma inv1_resub wc :
+  Inv1 (fst wc) /\ Forall call_id1 (snd wc) ->
+  Inv1 (fst (resubscribe_after_loss wc)) /\ Forall call_id1 (snd (resubscribe_after_loss wc)).
+Proof.
+  destruct wc as [w2 c2]. cbn [fst snd]. intros [H2 C2]. unfold resubscribe_after_loss.
+  assert (H2' : Inv1 (set_w_pending w2 [])) by exact H2.
+  destruct (inv1_subscribe _ H2') as [H3 C3].
+  destruct (subscribe (set_w_pending w2 [])) as [w3 c3]. cbn [fst snd] in *.
+  split; [exact H3|]. apply Forall_app. split; assumption.
+Qed.
+
+Lemma inv1_step w o :
+  is_tamper o = false -> Inv1 w -> Inv1 (fst (step w o)) /\ Forall call_id1 (snd (step w o)).
+Proof.
+  intros T H. destruct o; cbn [step]; try discriminate.
+  - apply inv1_create. exact H.
+  - split; [exact H|constructor].
+  - apply inv1_destroy. exact H.
+  - apply inv1_destroy. exact H.
+  - destruct H as [F [M [S A]]]. cbn. split; [|constructor].
+    repeat split; try assumption. apply fw_all_master_kill. exact A.
+  - destruct (memN s mesos_live_states); [|split; [exact H|constructor]].
+    destruct H as [F [M [S A]]]. cbn. split; [|constructor]. repeat split; try assumption.
+    intros x Hx. apply in_map_iff in Hx. destruct Hx as [y [E Hy]].
+    destruct (N.eqb (mt_id y) t && mt_alive y); subst x; cbn; apply A; exact Hy.
+  - apply inv1_cleanup. exact H.
+  - apply inv1_subscribe. exact H.
+  - apply inv1_crashstep. exact H.
   - apply inv1_answer. exact H.
   - apply inv1_create_held. exact H.
   - destruct (alive_at t (w_master w)); [|split; [exact H|constructor]].
@@ -337,6 +355,9 @@ Proof.
     apply fw_all_master_state. exact A.
   - destruct (alive_at t (w_master w)); [|split; [exact H|constructor]].
     destruct H as [F [M [S A]]]. cbn. split; [|constructor]. repeat split; assumption.
+  - split; [exact H|constructor].
+  - apply inv1_resub. apply (inv1_crashstep w p k H).
+  - apply inv1_resub. apply inv1_subscribe. exact H.
 Qed.
 
 Lemma inv1_boot : Inv1 (boot true).
@@ -453,18 +474,10 @@ Proof.
     + congruence.
 Qed.
 
-Lemma invS_step w o : is_tamper o = false -> InvS w -> InvS (fst (step w o)).
+Lemma invS_crashstep w p k : InvS w -> InvS (fst (step w (OCrash p k))).
 Proof.
-  intros T H. destruct o as [k|e|e keep|e|t|t s| |v| |p k| |k s|t|t]; cbn [step]; try discriminate.
-  - destruct (create_fields w k) as [_ [S [X [M _]]]]. unfold InvS. rewrite S, X, M. exact H.
-  - exact H.
-  - destruct (destroy_fields w e keep true) as [_ [S [X [M _]]]]. unfold InvS. rewrite S, X, M. exact H.
-  - destruct (destroy_fields w e false false) as [_ [S [X [M _]]]]. unfold InvS. rewrite S, X, M. exact H.
-  - exact H.
-  - destruct (memN s mesos_live_states); exact H.
-  - exact H.
-  - apply invS_subscribe. left. exact H.
-  - assert (P : exists w1 c1, (match p with
+  intro H. cbn [step].
+  assert (P : exists w1 c1, (match p with
       | PIdle => (w, [])
       | PBeforeLaunch =>
         let '(w0, c0) := cleanup w in
@@ -486,27 +499,43 @@ Proof.
     replace w2 with (fst (subscribe (crash w1))) by (rewrite E2; reflexivity).
     apply invS_subscribe. left. destruct H1 as [M [S X]]. unfold InvS, crash. cbn. rewrite S.
     repeat split; assumption.
+Qed.
+
+Lemma invS_resub wc : InvS (fst wc) -> InvS (fst (resubscribe_after_loss wc)).
+Proof.
+  destruct wc as [w2 c2]. cbn [fst]. intro H2. unfold resubscribe_after_loss.
+  pose proof (invS_subscribe (set_w_pending w2 []) (or_introl H2)) as H3.
+  destruct (subscribe (set_w_pending w2 [])) as [w3 c3]. exact H3.
+Qed.
+
+Lemma invS_step w o : is_tamper o = false -> InvS w -> InvS (fst (step w o)).
+Proof.
+  intros T H. destruct o as [k|e|e keep|e|t|t s| |v| |p k| |k s|t|t| |p k| ]; cbn [step]; try discriminate.
+  - destruct (create_fields w k) as [_ [S [X [M _]]]]. unfold InvS. rewrite S, X, M. exact H.
+  - exact H.
+  - destruct (destroy_fields w e keep true) as [_ [S [X [M _]]]]. unfold InvS. rewrite S, X, M. exact H.
+  - destruct (destroy_fields w e false false) as [_ [S [X [M _]]]]. unfold InvS. rewrite S, X, M. exact H.
+  - exact H.
+  - destruct (memN s mesos_live_states); exact H.
+  - exact H.
+  - apply invS_subscribe. left. exact H.
+  - apply invS_crashstep. exact H.
   - destruct (answer_fields w) as [_ [S [X [M _]]]]. unfold InvS. rewrite S, X, M. exact H.
   - destruct (create_held_fields w k s) as [_ [S [X [M _]]]]. unfold InvS. rewrite S, X, M. exact H.
   - destruct (alive_at t (w_master w)); exact H.
   - destruct (alive_at t (w_master w)); exact H.
+  - exact H.
+  - apply invS_resub. apply (invS_crashstep w p k H).
+  - apply invS_resub. apply invS_subscribe. left. exact H.
 Qed.
 
 Lemma invS_boot fo : InvS (boot fo).
 Proof. unfold boot. apply invS_subscribe. right. cbn. split; [reflexivity|discriminate]. Qed.
 
-Lemma step_launches w o t f : In (CLaunch t f) (snd (step w o)) -> f = w_mem w.
+Lemma crashstep_launches w p k t f : In (CLaunch t f) (snd (step w (OCrash p k))) -> f = w_mem w.
 Proof.
-  destruct o as [k|e|e keep|e|t1|t1 s| |v| |p k| |k s|t1|t1]; cbn [step]; try (cbn; intros []; fail).
-  - apply create_launches.
-  - unfold destroy. destruct (negb (memN e (w_envs w))); [intros []|].
-    destruct keep; cbn; [intros []|]. intro H. apply in_map_iff in H. destruct H as [x [E _]]. discriminate.
-  - unfold destroy. destruct (negb (memN e (w_envs w))); [intros []|]. cbn.
-    intro H. apply in_map_iff in H. destruct H as [x [E _]]. discriminate.
-  - destruct (memN s mesos_live_states); intros [].
-  - cbn. intro H. apply in_map_iff in H. destruct H as [x [E _]]. discriminate.
-  - cbn. intros [H|[H|[]]]; discriminate.
-  - destruct p.
+  cbn [step].
+  destruct p.
     + cbn. intros [H|[H|[]]]; discriminate.
     + cbn. intro H. apply in_app_or in H. destruct H as [H|[H|[H|[]]]]; try discriminate.
       apply in_map_iff in H. destruct H as [x [E _]]. discriminate.
@@ -516,6 +545,32 @@ Proof.
     + destruct (create w k) as [w0 c0] eqn:E0. cbn. intro H. apply in_app_or in H.
       destruct H as [H|[H|[H|[]]]]; try discriminate.
       apply (create_launches w k t f). rewrite E0. exact H.
+Qed.
+
+Lemma subscribe_no_launch w t f : ~ In (CLaunch t f) (snd (subscribe w)).
+Proof. cbn. intros [H|[H|[]]]; discriminate. Qed.
+
+Lemma resub_launches wc t f :
+  In (CLaunch t f) (snd (resubscribe_after_loss wc)) -> In (CLaunch t f) (snd wc).
+Proof.
+  destruct wc as [w2 c2]. unfold resubscribe_after_loss.
+  pose proof (subscribe_no_launch (set_w_pending w2 []) t f) as N.
+  destruct (subscribe (set_w_pending w2 [])) as [w3 c3]. cbn [snd] in *.
+  intro H. apply in_app_or in H. destruct H as [H|H]; [exact H|contradiction].
+Qed.
+
+Lemma step_launches w o t f : In (CLaunch t f) (snd (step w o)) -> f = w_mem w.
+Proof.
+  destruct o as [k|e|e keep|e|t1|t1 s| |v| |p k| |k s|t1|t1| |p k| ]; cbn [step]; try (cbn; intros []; fail).
+  - apply create_launches.
+  - unfold destroy. destruct (negb (memN e (w_envs w))); [intros []|].
+    destruct keep; cbn; [intros []|]. intro H. apply in_map_iff in H. destruct H as [x [E _]]. discriminate.
+  - unfold destroy. destruct (negb (memN e (w_envs w))); [intros []|]. cbn.
+    intro H. apply in_map_iff in H. destruct H as [x [E _]]. discriminate.
+  - destruct (memN s mesos_live_states); intros [].
+  - cbn. intro H. apply in_map_iff in H. destruct H as [x [E _]]. discriminate.
+  - cbn. intros [H|[H|[]]]; discriminate.
+  - apply crashstep_launches.
   - unfold answer. destruct (w_pending w) as [|[t0 s] rest]; [intros []|].
     destruct (memN s recon_kill_states && negb (recon_guarded && in_roster t0 (w_roster w))); cbn.
     + intros [H|[]]. discriminate.
@@ -523,6 +578,8 @@ Proof.
   - apply create_held_launches.
   - destruct (alive_at t1 (w_master w)); intros [].
   - destruct (alive_at t1 (w_master w)); intros [].
+  - intro H. apply resub_launches in H. apply (crashstep_launches w p k t f H).
+  - intro H. apply resub_launches in H. destruct (subscribe_no_launch w t f H).
 Qed.
 
 (* the framework id is in the store before any task is launched under it *)
@@ -616,9 +673,9 @@ Qed.
 
 Lemma live_ok_step w o : live_ok (w_master w) -> live_ok (w_master (fst (step w o))).
 Proof.
-  intro H. destruct o as [k|e|e keep|e|t|t s| |v| |p k| |k s|t|t];
+  intro H. destruct o as [k|e|e keep|e|t|t s| |v| |p k| |k s|t|t| |p k| ];
     [cbn [step]|cbn [step]|cbn [step]|cbn [step]|cbn [step]|cbn [step]|cbn [step]|cbn [step]|cbn [step]
-    |rewrite step_crash|cbn [step]|cbn [step]|cbn [step]|cbn [step]].
+    |rewrite step_crash|cbn [step]|cbn [step]|cbn [step]|cbn [step]|cbn [step]|cbn [step]|cbn [step]].
   - apply live_ok_create. exact H.
   - exact H.
   - apply live_ok_destroy. exact H.
@@ -642,6 +699,11 @@ Proof.
   - destruct (alive_at t (w_master w)); [|exact H]. cbn.
     apply live_ok_master_state; [apply running_live|exact H].
   - destruct (alive_at t (w_master w)); exact H.
+  - exact H.
+  - change (crash_step w p k) with (step w (OCrash p k)). rewrite step_crash.
+    pose proof (live_ok_prephase w p k H) as H1.
+    destruct (prephase w p k) as [w1 c1]. cbn [fst] in H1. cbn. exact H1.
+  - cbn. exact H.
 Qed.
 
 Lemma live_ok_run w ops : live_ok (w_master w) -> live_ok (w_master (after w ops)).
@@ -672,8 +734,7 @@ Definition roster_lt (ros : list rtask) (n : N) : Prop := forall r, In r ros -> 
 (* (whether a roster task is ACTIVE plays no part: a roster task of a live environment can be
    INACTIVE while the master has it alive - launch window, TASK_LOST) *)
 Definition Inv2 (w : world) : Prop :=
-  covered (w_master w) (w_roster w) (w_pending w) /\
-  pend_live (w_pending w) /\ roster_lt (w_roster w) (w_ntask w).
+  covered (w_master w) (w_roster w) (w_pending w) /\ pend_live (w_pending w).
 
 (* doKillTasks sends KILL to every task of the set it drops from the roster, ACTIVE or not (the
    regenerated kill_inactive = true: without the second loop of doKillTasks a held or lost task
@@ -737,23 +798,18 @@ Qed.
 
 Lemma inv2_cleanup w : Inv2 w -> Inv2 (fst (cleanup w)).
 Proof.
-  intros [C [P L]]. unfold Inv2. cbn. split; [|split; [exact P|apply roster_lt_remove; exact L]].
+  intros [C P]. unfold Inv2. cbn. split; [|exact P].
   apply (purge_ok _ (w_roster w)); [intro t; reflexivity|exact C].
 Qed.
 
 Lemma inv2_launch w k : Inv2 w -> Inv2 (fst (launch w k)).
 Proof.
-  intros [C [P L]]. unfold Inv2. cbn. repeat split.
-  - intros x Hx Ax. apply in_app_or in Hx. destruct Hx as [Hx|Hx].
-    + destruct (C x Hx Ax) as [Q|R]; [left; exact Q|]. right. rewrite in_roster_app, R. reflexivity.
-    + right. apply in_map_iff in Hx. destruct Hx as [i [E Hi]]. subst x. cbn.
-      rewrite in_roster_app. apply orb_true_iff. right. apply in_roster_spec.
-      exists (mkR i (Some (w_nenv w)) true). split; [|reflexivity]. apply in_map_iff. eauto.
-  - exact P.
-  - intros r Hr. apply in_app_or in Hr. destruct Hr as [Hr|Hr].
-    + pose proof (L r Hr). lia.
-    + apply in_map_iff in Hr. destruct Hr as [i [E Hi]]. subst r. cbn.
-      apply new_ids_spec in Hi. rewrite N2Nat.id in Hi. lia.
+  intros [C P]. unfold Inv2. cbn. split; [|exact P].
+  intros x Hx Ax. apply in_app_or in Hx. destruct Hx as [Hx|Hx].
+  - destruct (C x Hx Ax) as [Q|R]; [left; exact Q|]. right. rewrite in_roster_app, R. reflexivity.
+  - right. apply in_map_iff in Hx. destruct Hx as [i [E Hi]]. subst x. cbn.
+    rewrite in_roster_app. apply orb_true_iff. right. apply in_roster_spec.
+    exists (mkR i (Some (w_nenv w)) true). split; [|reflexivity]. apply in_map_iff. eauto.
 Qed.
 
 Lemma inv2_create w k : Inv2 w -> Inv2 (fst (create w k)).
@@ -767,8 +823,8 @@ Qed.
 Lemma inv2_create_held w k s : Inv2 w -> Inv2 (fst (create_held w k s)).
 Proof.
   intro H. unfold create_held. pose proof (inv2_create w k H) as H1.
-  destruct (create w k) as [w1 c1]. cbn [fst] in *. destruct H1 as [C [P L]].
-  unfold Inv2. cbn. split; [|split; [exact P|apply roster_lt_deactivate; exact L]].
+  destruct (create w k) as [w1 c1]. cbn [fst] in *. destruct H1 as [C P].
+  unfold Inv2. cbn. split; [|exact P].
   apply (covered_relabel (w_master w1) _ (w_roster w1)); [|intro t; apply roster_deactivate_in_roster|exact C].
   intros x Hx. apply (master_state_same _ _ _ _ Hx).
 Qed.
@@ -776,12 +832,11 @@ Qed.
 Lemma inv2_destroy w e keep : Inv2 w -> Inv2 (fst (destroy w e keep true)).
 Proof.
   intros H. unfold destroy. destruct (negb (memN e (w_envs w))); [exact H|].
-  destruct H as [C [P L]]. destruct keep; unfold Inv2; cbn.
-  - repeat split; try assumption.
-    + intros x Hx Ax. destruct (C x Hx Ax) as [Q|R]; [left; exact Q|]. right.
-      rewrite release_in_roster. exact R.
-    + apply roster_lt_release. exact L.
-  - split; [|split; [exact P|apply roster_lt_remove; apply roster_lt_release; exact L]].
+  destruct H as [C P]. destruct keep; unfold Inv2; cbn.
+  - split; [|exact P].
+    intros x Hx Ax. destruct (C x Hx Ax) as [Q|R]; [left; exact Q|]. right.
+    rewrite release_in_roster. exact R.
+  - split; [|exact P].
     apply (purge_ok _ (w_roster w)); [intro t; apply release_in_roster|exact C].
 Qed.
 
@@ -799,7 +854,7 @@ Qed.
 
 Lemma inv2_answer w : Inv2 w -> Inv2 (fst (answer w)).
 Proof.
-  intros [C [P L]]. unfold answer. destruct (w_pending w) as [|[t0 s] rest] eqn:EP.
+  intros [C P]. unfold answer. destruct (w_pending w) as [|[t0 s] rest] eqn:EP.
   - cbn [fst]. unfold Inv2. rewrite EP. auto.
   - assert (Prest : pend_live rest) by (intros t s' H; apply (P t s'); right; exact H).
     assert (Ks : memN s recon_kill_states = true).
@@ -809,14 +864,12 @@ Proof.
       as ros' eqn:Eros.
     assert (IR : forall t, in_roster t ros' = in_roster t (w_roster w)).
     { intro t. subst ros'. destruct (memN s status_activating); [apply roster_activate_in_roster|reflexivity]. }
-    assert (LT : roster_lt ros' (w_ntask w)).
-    { subst ros'. destruct (memN s status_activating); [apply roster_lt_activate|]; exact L. }
     clear Eros.
     destruct (negb (recon_guarded && in_roster t0 (w_roster w))) eqn:G; unfold Inv2; cbn.
-    + split; [|split; [exact Prest|apply roster_lt_deactivate; exact L]].
+    + split; [|exact Prest].
       apply (kill_one_ok (w_master w) (w_roster w) ((t0, s) :: rest) rest t0); [exact C|].
       intros t s' [Q|Q] Ne; [inversion Q; subst; exfalso; apply Ne; reflexivity|exact Q].
-    + split; [|split; [exact Prest|exact LT]].
+    + split; [|exact Prest].
       intros x Hx Ax. rewrite IR. destruct (C x Hx Ax) as [[s' [Q|Q]]|R].
       * inversion Q; subst. right. apply negb_false_iff in G. apply andb_true_iff in G. apply G.
       * left. eauto.
@@ -825,15 +878,14 @@ Qed.
 
 Lemma inv2_step w o : tame o = true -> Inv2 w -> Inv2 (fst (step w o)).
 Proof.
-  intros T H. destruct o as [k|e|e keep|e|t|t s| |v| |p k| |k s|t|t]; cbn [step]; try discriminate.
+  intros T H. destruct o as [k|e|e keep|e|t|t s| |v| |p k| |k s|t|t| |p k| ]; cbn [step]; try discriminate.
   - apply inv2_create. exact H.
   - exact H.
   - apply inv2_destroy. exact H.
-  - destruct H as [C [P L]]. unfold Inv2. cbn.
-    split; [|split; [exact P|apply roster_lt_deactivate; exact L]].
+  - destruct H as [C P]. unfold Inv2. cbn. split; [|exact P].
     apply (kill_one_ok (w_master w) (w_roster w) (w_pending w) (w_pending w) t); auto.
   - destruct (memN s mesos_live_states); [|exact H].
-    destruct H as [C [P L]]. unfold Inv2. cbn. repeat split; try assumption.
+    destruct H as [C P]. unfold Inv2. cbn. split; [|exact P].
     intros x Hx Ax. apply in_map_iff in Hx. destruct Hx as [y [E Hy]].
     destruct (N.eqb (mt_id y) t && mt_alive y) eqn:B; subst x; cbn in *.
     + apply andb_true_iff in B. apply (C y Hy). apply B.
@@ -841,14 +893,31 @@ Proof.
   - apply inv2_cleanup. exact H.
   - apply inv2_answer. exact H.
   - apply inv2_create_held. exact H.
-  - destruct (alive_at t (w_master w)); [|exact H]. destruct H as [C [P L]]. unfold Inv2. cbn.
-    split; [|split; [exact P|apply roster_lt_activate; exact L]].
+  - destruct (alive_at t (w_master w)); [|exact H]. destruct H as [C P]. unfold Inv2. cbn.
+    split; [|exact P].
     apply (covered_relabel (w_master w) _ (w_roster w)); [|intro t'; apply roster_activate_in_roster|exact C].
     intros x Hx. apply (master_state_same _ _ _ _ Hx).
-  - destruct (alive_at t (w_master w)); [|exact H]. destruct H as [C [P L]]. unfold Inv2. cbn.
-    split; [|split; [exact P|apply roster_lt_deactivate; exact L]].
+  - destruct (alive_at t (w_master w)); [|exact H]. destruct H as [C P]. unfold Inv2. cbn.
+    split; [|exact P].
     apply (covered_relabel (w_master w) _ (w_roster w)); [|intro t'; apply roster_deactivate_in_roster|exact C].
     intros x Hx. exists x. auto.
+Qed.
+
+(* EVERY (re)subscription is followed by the implicit reconciliation (the regenerated
+   reconcile_every_subscribed = true: the handler installed in the SUBSCRIBED chain sends RECONCILE
+   unconditionally), and the master answers with every live task of the framework: whatever was
+   lost before, after a subscription everything alive at the master has an answer on its way *)
+Lemma inv2_after_subscribe w :
+  Inv1 w -> live_ok (w_master w) -> Inv2 (fst (subscribe w)).
+Proof.
+  assert (E : reconcile_every_subscribed = true) by reflexivity.
+  intros [F [M [S A]]] L1. unfold subscribe. rewrite F, M. cbn. unfold Inv2. cbn. split.
+  - intros x Hx Ax. left. exists (mt_state x). unfold snapshot. apply in_map_iff.
+    exists x. split; [reflexivity|]. apply filter_In. split; [exact Hx|].
+    rewrite Ax, (A x Hx). reflexivity.
+  - intros t s Hts. unfold snapshot in Hts. apply in_map_iff in Hts. destruct Hts as [x [E' Hx]].
+    apply filter_In in Hx. destruct Hx as [Hx B]. apply andb_true_iff in B. inversion E'; subst.
+    apply L1; [exact Hx|apply B].
 Qed.
 
 (* a restart establishes the invariant *)
@@ -866,7 +935,6 @@ Proof.
   - intros t s Hts. unfold snapshot in Hts. apply in_map_iff in Hts. destruct Hts as [x [E Hx]].
     apply filter_In in Hx. destruct Hx as [Hx B]. apply andb_true_iff in B. inversion E; subst.
     apply L1; [exact Hx|apply B].
-  - intros r [].
 Qed.
 
 (* after a restart at any crash point, whatever the new life does and however the answers
@@ -1205,3 +1273,100 @@ Lemma status_rule_shape :
   forallb (fun s => negb (memN s status_deactivating)) mesos_live_states = true /\
   filter (fun s => memN s status_activating) mesos_live_states = [mesos_running].
 Proof. vm_compute. repeat split; reflexivity. Qed.
+
+(* ================================================================ a lost reconciliation is
+   repeated: every (re)subscription - a restart, a reconnection, and the automatic re-subscription
+   after the answers of either were lost - re-establishes the invariant of restart_kills_orphans *)
+Lemma inv2_after_resub wc :
+  Inv1 (fst wc) -> live_ok (w_master (fst wc)) -> Inv2 (fst (resubscribe_after_loss wc)).
+Proof.
+  destruct wc as [w2 c2]. cbn [fst]. intros I L. unfold resubscribe_after_loss.
+  pose proof (inv2_after_subscribe (set_w_pending w2 []) I L) as X.
+  destruct (subscribe (set_w_pending w2 [])) as [w3 c3]. exact X.
+Qed.
+
+Lemma inv2_after_sub_step w o :
+  is_sub o = true -> Inv1 w -> live_ok (w_master w) -> Inv2 (fst (step w o)).
+Proof.
+  intros S I L. destruct o; try discriminate.
+  - cbn [step]. apply inv2_after_subscribe; assumption.
+  - apply inv2_after_crash; assumption.
+  - cbn [step]. change (crash_step w p k) with (step w (OCrash p k)).
+    apply inv2_after_resub; [apply (inv1_crashstep w p k I)|apply live_ok_step; exact L].
+  - cbn [step]. apply inv2_after_resub; [apply inv1_subscribe; exact I|exact L].
+Qed.
+
+Lemma resubscription_kills_orphans ops o ops' :
+  no_tamper ops = true -> is_sub o = true -> forallb tame ops' = true ->
+  let w1 := fst (step (after (boot true) ops) o) in
+  let w2 := after w1 ops' in
+  w_pending w2 = [] ->
+  forall t, In t (w_master w2) -> mt_alive t = true -> in_roster (mt_id t) (w_roster w2) = true.
+Proof.
+  intros T S Tm w1 w2 E t Ht At.
+  assert (I1 : Inv1 (after (boot true) ops)) by (apply inv1_run; [exact T|apply inv1_boot]).
+  assert (L0 : live_ok (w_master (after (boot true) ops))).
+  { apply live_ok_run. unfold boot. cbn. intros x []. }
+  assert (I2 : Inv2 w2).
+  { apply (run_invariant Inv2 tame); [apply inv2_step|exact Tm|].
+    apply inv2_after_sub_step; assumption. }
+  destruct I2 as [C _]. destruct (C t Ht At) as [[s Q]|R]; [|exact R].
+  rewrite E in Q. destruct Q.
+Qed.
+
+(* the quiescent operations of the harness with a lost reconciliation are histories of that kind *)
+Lemma run_cons w o ops :
+  run w (o :: ops) =
+  let '(w1, c1) := step w o in let '(w2, c2) := run w1 ops in (w2, c1 ++ c2).
+Proof. reflexivity. Qed.
+
+Lemma resub_is_run wc :
+  resubscribe_after_loss wc =
+  let '(w2, c2) := wc in
+  let '(w3, c3) := run w2 [OLoseAnswers; OReconnect] in (w3, c2 ++ c3).
+Proof.
+  destruct wc as [w2 c2]. unfold resubscribe_after_loss. rewrite !run_cons. cbn [step run].
+  destruct (subscribe (set_w_pending w2 [])) as [w3 c3]. cbn [app]. rewrite app_nil_r. reflexivity.
+Qed.
+
+Lemma crash_lost_is_run w p k :
+  step w (OCrashLost p k) = run w [OCrash p k; OLoseAnswers; OReconnect].
+Proof.
+  rewrite run_cons.
+  change (step w (OCrashLost p k)) with (resubscribe_after_loss (step w (OCrash p k))).
+  apply resub_is_run.
+Qed.
+
+Lemma reconnect_lost_is_run w :
+  step w OReconnectLost = run w [OReconnect; OLoseAnswers; OReconnect].
+Proof.
+  rewrite run_cons.
+  change (step w OReconnectLost) with (resubscribe_after_loss (step w OReconnect)).
+  apply resub_is_run.
+Qed.
+
+(* a restart whose first reconciliation is lost: once the answers of the repeated one are
+   processed nothing is alive at the master *)
+Lemma restart_lost_quiescent ops p k :
+  no_tamper ops = true ->
+  let w2 := fst (hstep (after (boot true) ops) (OCrashLost p k)) in
+  (forall t, In t (w_master w2) -> mt_alive t = false) /\ w_roster w2 = [] /\ w_envs w2 = [].
+Proof.
+  intros T w2. subst w2. rewrite hstep_is_run.
+  set (w := after (boot true) ops). set (w1 := fst (step w (OCrashLost p k))).
+  set (n := length (w_pending w1)).
+  change (fst (run w (OCrashLost p k :: repeat OAnswer n))) with (after w (OCrashLost p k :: repeat OAnswer n)).
+  rewrite after_cons. fold w1.
+  destruct (drain_spec n w1 eq_refl) as [P [R E]].
+  assert (RE : w_roster w1 = [] /\ w_envs w1 = []).
+  { unfold w1. cbn [step]. change (crash_step w p k) with (step w (OCrash p k)).
+    destruct (crash_roster_nil w p k) as [R1 E1]. unfold resubscribe_after_loss.
+    destruct (step w (OCrash p k)) as [wa ca]. cbn [fst] in R1, E1.
+    unfold subscribe. cbn. split; assumption. }
+  destruct RE as [R1 E1]. specialize (R R1). split; [|split; [exact R|rewrite E; exact E1]].
+  intros t Ht. destruct (mt_alive t) eqn:A; [|reflexivity]. exfalso.
+  pose proof (resubscription_kills_orphans ops (OCrashLost p k) (repeat OAnswer n) T eq_refl
+                (forallb_tame_answers n)) as K.
+  cbn zeta in K. fold w in K. fold w1 in K. specialize (K P t Ht A).
+  rewrite R in K. discriminate.
+Qed.
